@@ -629,7 +629,7 @@ pub fn run(ctx: &Ctx) -> ! {
     let replay_sub = vcore::replay_target(ctx).map(|t| t.0);
 
     // coalescer
-    let depth = ctx.pick(4, 6);
+    let depth = ctx.pick(4, 5);
     let targets: Vec<usize> = vec![1, 2, 3, 5];
     let limits: Vec<Option<usize>> = vec![None, Some(2), Some(4)];
     let schemas = [CSchema::Int, CSchema::View, CSchema::IntUtf8, CSchema::ViewInt, CSchema::Empty];
